@@ -112,6 +112,23 @@ Definition stationary_K (n k l : nat) (A G Hm Sinf : mat) : option mat :=
   | Some temp2 => Some (mmul n k k temp1 temp2)
   end.
 
+(* stationary_coefficients(j, coeff_type) given K_infinity:
+     'ma' : [I_k, G P K ...] with P = I, P <- P A          (i = 1..j)
+     'var': [G K, G P K ...] with P = A - K G, P <- P (A - K G) *)
+Fixpoint statcoef_loop (n k : nat) (G K Pmat : mat) (cnt : nat) (P : mat) : list mat :=
+  match cnt with
+  | O => []
+  | S r => mmul k n k (mmul k n n G P) K :: statcoef_loop n k G K Pmat r (mmul n n n P Pmat)
+  end.
+Definition stationary_coefficients (n k : nat) (A G K : mat) (j : nat) (var : bool) : list mat :=
+  if var then
+    let Pmat := msub n n A (mmul n k n K G) in
+    mmul k n k G K :: statcoef_loop n k G K Pmat j Pmat
+  else mid k :: statcoef_loop n k G K A j (mid n).
+(* stationary_innovation_covar = G (Sigma_inf G') + R *)
+Definition stationary_innovation_covar (n k l : nat) (G Hm Sinf : mat) : mat :=
+  madd k k (mmul k n k G (mmul n n k Sinf (mtr k n G))) (outer k l Hm).
+
 (* residual of the dual Riccati equation at Sigma, with Fi the inverse of G Sigma G' + R:
      Sigma - (A Sigma A' - A Sigma G' Fi G Sigma A' + Q) *)
 Definition dual_riccati_rhs (n k : nat) (A G Qm Fi Sigma : mat) : mat :=
